@@ -28,6 +28,7 @@ for d in sorted(glob.glob(os.path.join(V, "seeded", "*"))):
 for r in rows:
     print(" | ".join(r))
 # leave Facts.lean regenerated from the unchanged repository
-subprocess.run(["go", "run", ".", "-repo", "/repo", "-out", os.path.join(V, "lean", "LzModel", "Generated", "Facts.lean")],
+subprocess.run(["go", "run", ".", "-repo", "/repo", "-out", os.path.join(V, "lean", "LzModel", "Generated", "Facts.lean"),
+                "-code", os.path.join(V, "lean", "LzModel", "Generated", "Code.lean")],
                cwd=os.path.join(V, "tools", "extract"),
                env=dict(os.environ, GOFLAGS="-mod=mod", GOPROXY="off", GOSUMDB="off", GOTOOLCHAIN="local"))
